@@ -9,6 +9,9 @@ if variant >= 'c':
     extra += ('\n- To spread the choices: first write down AT LEAST TEN candidate spots (function + what you would change + which clause it breaks) in ' + out + '/candidates.md, '
               'covering at least three different files where the mechanism allows; then pick one with `python3 -c "import random; print(random.randrange(10))"` '
               '(re-draw if that candidate turns out not to be feasible). Prefer candidates outside the single most central function.')
+if variant >= 'd':
+    extra += ('\n- Do not simply delete a check, guard or call outright: prefer a change that alters a value, a condition, an ordering, a key, a default, '
+              'or that moves a statement -- the kind of edit that still "looks complete" in review. Prefer a clause of the statement other than its first sentence.')
 p = [json.loads(l) for l in open('/verif/properties.jsonl') if json.loads(l)['id'] == pid][0]
 print(f"""You are helping to evaluate a verification tool. Your job: make ONE small, realistic change to the Python ORM "Pony" (ponyorm/pony) that BREAKS the property below, while the code still imports/compiles and the project's existing test suite still passes exactly as before.
 
